@@ -231,12 +231,16 @@ func checkC10(p *Prog, r *Report) {
 			g := p.CFG(run)
 			var sendBlock *Block
 			var doneObj types.Object // the completion channel placed in the submitted task
+			var sentObj types.Object
 			for _, b := range g.Blocks {
 				for _, e := range b.Succs {
 					if e.Cond != nil && e.Cond.Op == "comm" {
 						if s, ok := e.Cond.Stmt.(*ast.SendStmt); ok && p.IsField(s.Chan, "taskloop.Loop.tasks") {
 							sendBlock = e.To
-							if cl, ok := unparen(s.Value).(*ast.CompositeLit); ok {
+							if id, ok := unparen(s.Value).(*ast.Ident); ok {
+								sentObj = p.ObjOf(id) // the task is sent through a variable: its channel field is the completion channel
+							}
+							if cl, ok := unparen(p.Deref(run, s.Value)).(*ast.CompositeLit); ok {
 								for _, el := range cl.Elts {
 									v := el
 									if kv, ok := el.(*ast.KeyValueExpr); ok {
@@ -255,6 +259,13 @@ func checkC10(p *Prog, r *Report) {
 			}
 			// resolves aliases of the completion channel (finished := done)
 			isDone := func(e ast.Expr) bool {
+				if sel, ok := unparen(e).(*ast.SelectorExpr); ok && sentObj != nil {
+					if id, ok := unparen(sel.X).(*ast.Ident); ok && p.ObjOf(id) == sentObj {
+						if _, isChan := p.TypeOf(sel).Underlying().(*types.Chan); isChan && p.FieldOf(sel) != nil {
+							return true
+						}
+					}
+				}
 				for i := 0; i < 4; i++ {
 					id, ok := unparen(e).(*ast.Ident)
 					if !ok {
